@@ -93,3 +93,18 @@ Theorem C14_code_memorysize_bytes : forall s sf,
   fn_size_bytes s sf = (al <- mk_alfid 8 sf ;; size_bytes {| ml_addr := 0; ml_size := s; ml_af := Some 8; ml_sf := Some sf; ml_alfid := al |}).
 Proof. exact tie_size_bytes. Qed.
 Print Assumptions C14_code_memorysize_bytes.
+
+(* ---- the code is the model: the client methods apply the configured server formats to the caller's MemoryLocation (Gen/Fn_ClientFormats.v) ---- *)
+From UDS Require Import Gen.Fn_ClientFormats Proofs.Tie_client_formats.
+Theorem C14_code_client_formats_read : forall a s af sf ca cs,
+  fn_client_formats_read a s af sf ca cs = (m <- mk_memloc a s af sf ;; m2 <- apply_server_formats m ca cs ;; ret (Tie_client_formats.obs_formats m2)).
+Proof. exact tie_client_formats_read. Qed.
+Print Assumptions C14_code_client_formats_read.
+Theorem C14_code_client_formats_write : forall a s af sf ca cs,
+  fn_client_formats_write a s af sf ca cs = (m <- mk_memloc a s af sf ;; m2 <- apply_server_formats m ca cs ;; ret (Tie_client_formats.obs_formats m2)).
+Proof. exact tie_client_formats_write. Qed.
+Print Assumptions C14_code_client_formats_write.
+Theorem C14_code_client_formats_download : forall a s af sf ca cs,
+  fn_client_formats_download a s af sf ca cs = (m <- mk_memloc a s af sf ;; m2 <- apply_server_formats m ca cs ;; ret (Tie_client_formats.obs_formats m2)).
+Proof. exact tie_client_formats_download. Qed.
+Print Assumptions C14_code_client_formats_download.
